@@ -138,9 +138,26 @@ func (r *runner) c01Predicate(tree map[string]string, events []string, where str
 		}
 	}
 	exp := r.expectedFiles()
+	// a declared output that is a DIRECTORY: once it exists at its final path it is complete
+	for dir, parts := range r.ref.DirOuts {
+		if tree[dir] != "<dir>" {
+			continue
+		}
+		if r.seedTree != nil && r.seedTree[dir] == "<dir>" {
+			continue
+		}
+		for _, f := range parts {
+			if got, ok := tree[f]; !ok || got != exp[f] {
+				add("partial-output", fmt.Sprintf("directory output %s exists at its final path but %s is missing or incomplete (%s)", dir, f, where))
+			}
+		}
+	}
 	for p, c := range tree {
 		if c == "<dir>" || strings.HasSuffix(p, ".audit.json") || strings.HasSuffix(p, ".audit.json.tmp") || isTemp(p) {
 			continue // the audit side-car (and its write-then-rename sibling) is not an output file
+		}
+		if inDirOut(r.ref, p) {
+			continue // judged with its directory above
 		}
 		if t, ok := declared[p]; ok {
 			if r.seedTree != nil {
@@ -169,6 +186,17 @@ func (r *runner) c01Predicate(tree map[string]string, events []string, where str
 		add("stray-file", fmt.Sprintf("unfinished work outside the temp directory: %s (%s)", p, where))
 	}
 	return vs
+}
+
+func inDirOut(ref *Ref, p string) bool {
+	for _, parts := range ref.DirOuts {
+		for _, f := range parts {
+			if f == p {
+				return true
+			}
+		}
+	}
+	return false
 }
 
 func classOfAfter(after string) string {
@@ -343,6 +371,14 @@ func (r *runner) finalBefore() map[string]bool {
 		}
 		all := true
 		for _, p := range t.Outs {
+			if parts, isDir := r.ref.DirOuts[p]; isDir {
+				for _, f := range parts {
+					if c, ok := r.seedTree[f]; !ok || c != r.ref.Files[f] {
+						all = false
+					}
+				}
+				continue
+			}
 			if c, ok := r.seedTree[p]; !ok || c != r.ref.Files[p] {
 				all = false
 			}
@@ -420,6 +456,9 @@ func oracleC03(r *runner, o *Obs) []Violation {
 	after := statAll(".")
 	for k := range r.finalBefore() {
 		for _, p := range r.ref.ByKey[k].Outs {
+			if _, isDir := r.ref.DirOuts[p]; isDir {
+				continue
+			}
 			if b, ok := r.preStat[p]; ok && after[p] != b {
 				add("resume-modified", "finalized output "+p+" was modified by the resumed run")
 			}
